@@ -499,9 +499,21 @@ func c10VictimPrograms(proto string) [][]wire.Op {
 			[]wire.Op{{Kind: "gat", Key: "zz", TTL: 0, Opaque: 142}},
 			[]wire.Op{{Kind: "get", Keys: []string{"bb", "a"}, Quiets: []bool{true, true}, Noop: true, Opaque: 150}},
 			[]wire.Op{{Kind: "set", Key: "a", Data: nv("a8"), Flags: 5, Opaque: 160, Quiet: true}, {Kind: "get", Keys: []string{"a"}, Quiets: []bool{false}, Opaque: 161}},
+			// a multi-key get followed by a GETEQ batch closed by NOOP (served by L1-only
+			// deployments with the direct handler only: see c10UsesGetE)
+			[]wire.Op{{Kind: "get", Keys: []string{"a", "zz", "bb"}, Quiets: []bool{true, true, false}, Opaque: 180}, {Kind: "get", Keys: []string{"bb", "a"}, Quiets: []bool{true, true}, Noop: true, E: true, Opaque: 190}},
 		)
 	}
 	return progs
+}
+
+func c10UsesGetE(prog []wire.Op) bool {
+	for _, o := range prog {
+		if o.E {
+			return true
+		}
+	}
+	return false
 }
 
 func c10Cfgs() []stack.Cfg {
@@ -527,6 +539,10 @@ func enumC10(tier string) []Plan {
 	for ci, cfg := range c10Cfgs() {
 		for _, proto := range []string{"text", "bin"} {
 			for pi, prog := range c10VictimPrograms(proto) {
+				getE := c10UsesGetE(prog)
+				if getE && !(cfg.Shape == "l1only" && cfg.L1 == "std") {
+					continue // GETE is served by L1-only deployments with the direct handler
+				}
 				tiers := []string{"l1"}
 				if cfg.HasL2() {
 					tiers = append(tiers, "l2")
@@ -546,7 +562,7 @@ func enumC10(tier string) []Plan {
 								if f.Kind != "status" && (int(n)+ci+pi+fi)%6 != 0 {
 									continue
 								}
-								if f.Kind == "status" && (pi+idx+ci)%2 != 0 && (int(n)+ci+pi+fi)%6 != 0 {
+								if f.Kind == "status" && !getE && (pi+idx+ci)%2 != 0 && (int(n)+ci+pi+fi)%6 != 0 {
 									continue
 								}
 							}
@@ -557,6 +573,15 @@ func enumC10(tier string) []Plan {
 							}
 							p.Faults = []kernel.Fault{f}
 							out = append(out, p)
+							if getE {
+								// ... and under the locking wrapper (per-connection state of the
+								// wrapper is shared between get and gete)
+								q := p.Clone()
+								q.Seed += 1 << 34
+								q.Cfg.Locked = true
+								q.Cfg.MultiReader = n%2 == 0
+								out = append(out, q)
+							}
 							// the same case with the victim's keys evicted from L1 (reads then
 							// back-fill L1 under the fault), under the locking wrapper in half of
 							// them: every third case of the two-tier deployments
@@ -590,6 +615,15 @@ func genC10(seed uint64, tier string) Plan {
 	evict := g.p(1, 3)
 	proto := pick(g, []string{"text", "bin"})
 	progs := c10VictimPrograms(proto)
+	if !(cfg.Shape == "l1only" && cfg.L1 == "std") {
+		var plain [][]wire.Op
+		for _, pr := range progs {
+			if !c10UsesGetE(pr) {
+				plain = append(plain, pr)
+			}
+		}
+		progs = plain
+	}
 	prog := append([]wire.Op{}, pick(g, progs)...)
 	if g.p(1, 2) {
 		prog = append(prog, pick(g, progs)...)
@@ -632,7 +666,7 @@ func init() {
 	register(&Prop{
 		ID: "C10", Gen: genC10, Exec: execC10, Enumerate: enumC10, Level: "fault_enumeration",
 		Nontrivial: func(p Plan, r Result) bool { return !r.Trivial },
-		Rule:       "one backend fault per run, addressed by (tier, index of the backend request counted from the start of the victim's program, kind): each of the 8 memcached error statuses that are refusals rather than statements about the key (E2BIG, EINVAL, UNKNOWN_COMMAND, ENOMEM, NOT_SUPPORTED, INTERNAL, BUSY, TMPFAIL; NOT_FOUND / EXISTS / NOT_STORED occur only truthfully) with its text body, connection closed before the request is applied / after it is applied but before the reply / after n reply bytes (n in {1, 23, 24, 26, 28, 30, 60}) / after the reply, each with EPIPE or silent write mode (36 faults per position). Enumerated part: 22 text / 27 binary victim programs (every command kind on present and absent keys, 3-chunk values, multi-key and quiet gets, 1-3 commands) x 6 deployments (L1-only / L1L2 / batch port x direct or chunked L1) x tier x request index 0..3 (0..9 on a chunked tier) x the 36 faults (thorough: all; quick: all 8 refusal statuses at every second position, a rotating sixth of them elsewhere, and a rotating sixth of the 28 connection faults; with the batch port the victim alternates between the ports); positions that the program never reaches count as trivial; a third of the two-tier cases (thorough: all) are repeated with the victim's keys evicted from L1 beforehand, half of those under the locking wrapper, so that reads back-fill L1 under the fault. Seeded part: drawn combinations, also under the locking wrapper, with evicted keys and with segmentation; one run in sixteen has the victim write a value of more than 1 MiB, which the simulated memcached truthfully refuses (too large), followed by a get and a set on the same connection. Oracle: victim gets a complete well-formed reply or its connection is closed (never quiescent with a request outstanding; a spinning goroutine is caught by the worker watchdog), an aborted connection has all its backend sockets closed, the bystander connection's replies equal the reference map's, and afterwards fresh connections read for every key only values allowed by a model in which unacknowledged writes may or may not have happened - never the value from before an acknowledged write or delete (read once as the tiers stand and once more with the keys evicted from L1, i.e. from L2 alone) - and can then overwrite every key (set / get answered STORED and the new value: nothing the faulted command held is still held). Non-trivial = the fault fired; distinct = distinct plan hash",
+		Rule:       "one backend fault per run, addressed by (tier, index of the backend request counted from the start of the victim's program, kind): each of the 8 memcached error statuses that are refusals rather than statements about the key (E2BIG, EINVAL, UNKNOWN_COMMAND, ENOMEM, NOT_SUPPORTED, INTERNAL, BUSY, TMPFAIL; NOT_FOUND / EXISTS / NOT_STORED occur only truthfully) with its text body, connection closed before the request is applied / after it is applied but before the reply / after n reply bytes (n in {1, 23, 24, 26, 28, 30, 60}) / after the reply, each with EPIPE or silent write mode (36 faults per position). Enumerated part: 22 text / 28 binary victim programs (one of them a multi-key get followed by a GETEQ batch closed by NOOP, run on the L1-only deployment with the direct handler, with and without the locking wrapper) (every command kind on present and absent keys, 3-chunk values, multi-key and quiet gets, 1-3 commands) x 6 deployments (L1-only / L1L2 / batch port x direct or chunked L1) x tier x request index 0..3 (0..9 on a chunked tier) x the 36 faults (thorough: all; quick: all 8 refusal statuses at every second position, a rotating sixth of them elsewhere, and a rotating sixth of the 28 connection faults; with the batch port the victim alternates between the ports); positions that the program never reaches count as trivial; a third of the two-tier cases (thorough: all) are repeated with the victim's keys evicted from L1 beforehand, half of those under the locking wrapper, so that reads back-fill L1 under the fault. Seeded part: drawn combinations, also under the locking wrapper, with evicted keys and with segmentation; one run in sixteen has the victim write a value of more than 1 MiB, which the simulated memcached truthfully refuses (too large), followed by a get and a set on the same connection. Oracle: victim gets a complete well-formed reply or its connection is closed (never quiescent with a request outstanding; a spinning goroutine is caught by the worker watchdog), an aborted connection has all its backend sockets closed, the bystander connection's replies equal the reference map's, and afterwards fresh connections read for every key only values allowed by a model in which unacknowledged writes may or may not have happened - never the value from before an acknowledged write or delete (read once as the tiers stand and once more with the keys evicted from L1, i.e. from L2 alone) - and can then overwrite every key (set / get answered STORED and the new value: nothing the faulted command held is still held). Non-trivial = the fault fired; distinct = distinct plan hash",
 		Real:       append(append([]string{}, realFullStack...), "handlers/memcached/chunked", "server/utils.go abort"),
 		Stub:       stubFullStack,
 		FaultKinds: []string{"status", "close_before", "close_applied", "close_mid", "close_after"},
